@@ -46,6 +46,17 @@ func next(name string) uint64 {
 	return cur.m[fmt.Sprintf("%s#%d", name, k)]
 }
 
+// LastU32 returns the value most recently produced by U32(name) (0 if none).
+func LastU32(name string) uint32 {
+	mu.Lock()
+	defer mu.Unlock()
+	k := cur.counts[name]
+	if k == 0 {
+		return 0
+	}
+	return uint32(cur.m[fmt.Sprintf("%s#%d", name, k-1)])
+}
+
 func Bool(name string) bool  { return next(name)&1 == 1 }
 func U8(name string) uint8   { return uint8(next(name)) }
 func U16(name string) uint16 { return uint16(next(name)) }
@@ -126,7 +137,15 @@ func Assume(c bool) {
 func Assert(c bool, msg string) {
 	if !c {
 		mu.Lock()
-		cur.failed = append(cur.failed, msg)
+		dup := false
+		for _, f := range cur.failed {
+			if f == msg {
+				dup = true
+			}
+		}
+		if !dup {
+			cur.failed = append(cur.failed, msg)
+		}
 		mu.Unlock()
 	}
 }
@@ -261,12 +280,15 @@ func RunReplay(table map[string]func()) {
 			f()
 		}()
 		switch {
+		case len(st.failed) > 0:
+			// failures recorded before a later assumption failed still stand:
+			// the solver's model only fixes the symbols created up to the violation
+			o.Result = "violated"
+			o.Failed = st.failed
+			o.Detail = st.diverged
 		case st.diverged != "":
 			o.Result = "diverged"
 			o.Detail = st.diverged
-		case len(st.failed) > 0:
-			o.Result = "violated"
-			o.Failed = st.failed
 		case o.Result == "":
 			o.Result = "passed"
 		}
